@@ -3,10 +3,13 @@
 ENUM (deviation-bounded) + gfortran differential.  Five template kernels, one per inlining entry
 point, each assembled from *feature blocks* (switches); a sixth template runs the
 InlineTransformation option product on a kernel that has one instance of every inlinable thing.
-Every combination of <= d blocks (d=1 quick, d=2 thorough) away from the base kernel x every
-transformation variant of the template is built twice with gfortran -O0 -fcheck=bounds (original /
-transformed) against the same harness-owned driver PROGRAM (3 inputs: n=4,5,6, x=0.5,1,2, k=1,2,3)
-and the printed outputs (every dummy of the kernel) are compared.  Exact dyadic reals, integer
+Every combination of <= d blocks (d=1 quick, d=2 thorough) away from the base kernel x the
+transformation variants of the template (all variants for <= 1 block, the PRIMARY ones for pairs) is
+built twice with gfortran -O0 -fcheck=bounds (original / transformed) against the same harness-owned
+driver PROGRAM (3 inputs: n=4,5,6, x=0.5,1,2, k=1,2,3) and the printed outputs (every dummy of the
+kernel) are compared.  The variants of one program share one build of the original; a variant that leaves
+the generated text byte-identical to the plain parse/fgen round trip is counted unchanged-ok without a
+second build (that text is C01's business).  Exact dyadic reals, integer
 division only where truncation is the point.  Recursion is excluded (property statement).
 
 Templates and entry points
@@ -18,6 +21,8 @@ Templates and entry points
   all   InlineTransformation(**opts).apply(routine), leaves first   option product (quick: <= 1 option away from the
                                                                      defaults / from all-on; thorough: all 2^9 x aliases)
   and for every template above the family 'trafo' = InlineTransformation with the matching option switched on.
+  int, mark and trafo are applied to every routine of the case, callees first (what the scheduler's reverse traversal
+  does); stmt, fn, fnelem and const resolve nested references themselves and are applied to the kernel only.
 
 Switch list (derived from the code; one block per branch/shortcut)
   map_call_to_procedure_body / _map_unbound_dims:  whole array; whole array with lower bound 0; assumed-shape dummy;
@@ -33,22 +38,24 @@ Switch list (derived from the code; one block per branch/shortcut)
   inline_subroutine_calls:  callee local = caller local / caller dummy / differing in case; allowed_aliases;
     automatic array sized by a dummy / by an expression actual / by a caller local; two calls to one callee with different
     size actuals (ChainMap takes the first); callee-local PARAMETER; host-associated read/write (int); module variable and
-    callee import (mark); nested callee defined before / after its caller; not every call marked (mark);
+    callee import (mark; only with adjust_imports, which is the documented way to get them); nested callee defined before / after its caller; not every call marked (mark);
     import at module level (mark); call inside loop / branch / one-line IF / ASSOCIATE; RETURN in the callee;
     ASSOCIATE inside the callee; !$loki routine pragma in the callee; member function (int).
   _inline_functions / inline_function_calls:  result inside a larger expression; twice in a statement; f(f(x)); f(g(x));
     in IF / ELSE IF / one-line IF condition; in the body of a one-line IF; in DO WHILE condition; in a loop bound; as
     actual of a call / of an intrinsic; as subscript; function with locals, early assignment and branch; RESULT clause;
-    type prefix; in loop; lhs is the argument; expression actual; keyword; OPTIONAL; local clash; array result;
+    type prefix; in loop; lhs is the argument; expression actuals (* ** - and integer division); keyword; OPTIONAL;
+    local clash; array result; intrinsic call next to / around a function reference;
     elemental called with arrays (skipped with a warning) alone and mixed with a scalar call; in ASSOCIATE; two statements;
     subscript name capture; RETURN; callee import; module variable.
   inline_statement_functions / InlineSubstitutionMapper:  expression actuals under * / ** -; nested statement functions
-    (also under a product); two dummies called with swapped names; host variable in the rhs; twice / nested self; in a
+    (also under a product); two dummies, one actual a nested reference; host variable in the rhs; twice / nested self; in a
     condition; as actual; in loop; dummy also used as an ordinary variable; dummy named like a kernel dummy; unused
     statement function; array element actual; statement function calling a module function (mapper's function branch).
   inline_constant_parameters:  parameter in expression under * - / **; negative parameter; in a dimension; as a kind of
     a declaration and of a literal; literal kind inside an imported initialiser; shadowed by a local (module-level import);
-    used in a member procedure; renamed import; parameter array; local parameters (external_only=False); loop bound /
+    used in a member procedure; renamed import; parameter array; parameter defined by another parameter; local
+    parameters, literal / expression initialiser / used as dimension (external_only=False); loop bound /
     CASE value; as actual argument; USE without ONLY; non-parameter imported next to parameters.
 
 Weaker readings: an explicit refusal (NotImplementedError, error with "cannot/not supported") is counted, not a
